@@ -536,3 +536,38 @@ def c16_replay(rec):
     finally:
         import shutil
         shutil.rmtree(d, ignore_errors=True)
+
+
+def c08_corpus(code, dec):
+    """every decoded and every JSON-loaded CodeData is hashable; values equal across the two routes hash equal and sit in sets"""
+    from .props2 import CORPUS_CHECKS  # noqa
+    cd, err = dec.get(code)
+    if err is not None:
+        return []
+    msgs = []
+    try:
+        h1 = hash(cd)
+    except TypeError as e:
+        return ["decoded CodeData is not hashable: %s" % e]
+    try:
+        j = CodeData.from_json_data(json.loads(json.dumps(cd.to_json_data())))
+    except Exception:
+        return []       # C07 reports codec failures
+    try:
+        h2 = hash(j)
+    except TypeError as e:
+        return ["JSON-loaded CodeData is not hashable: %s" % e]
+    if cd == j and h1 != h2:
+        msgs.append("decoded and JSON-loaded values are equal but hash differently")
+    if cd == j and (j not in {cd} or cd not in {j: 1}):
+        msgs.append("set/dict membership fails between equal values")
+    if (cd == j) != (j == cd):
+        msgs.append("equality is not symmetric between the decoded and the loaded value")
+    n = cd.normalize()
+    if n == cd and hash(n) != h1:
+        msgs.append("normalized value equals the decoded one but hashes differently")
+    return msgs
+
+
+from .props2 import CORPUS_CHECKS as _CC
+_CC["C08"] = [("hashable_value_across_routes", c08_corpus)]
